@@ -409,15 +409,15 @@ type c14Pred struct {
 }
 
 type c14Case struct {
-	Mode    string     `json:"mode"`
-	Fmt     string     `json:"fmt"`
-	Cfg     c14Cfg     `json:"cfg"`
-	Fields  []string   `json:"fields"`
-	Size    int        `json:"size"`
-	Chunks  []c14Chunk `json:"chunks"`
-	Preds   []c14Pred  `json:"preds"`
-	Batches []c14Batch `json:"batches"`
-	Sel     [][]string `json:"sel"`
+	Mode     string     `json:"mode"`
+	Fmt      string     `json:"fmt"`
+	Cfg      c14Cfg     `json:"cfg"`
+	Fields   []string   `json:"fields"`
+	Size     int        `json:"size"`
+	Chunks   []c14Chunk `json:"chunks"`
+	Preds    []c14Pred  `json:"preds"`
+	Batches  []c14Batch `json:"batches"`
+	Sel      [][]string `json:"sel"`
 	Lower    [][]string `json:"lower"`    // the spec's case table (filter cases)
 	Alphabet []string   `json:"alphabet"` // the characters it covers
 }
